@@ -134,6 +134,70 @@ impl<T: Elem + SatisfyTraits<Tr>, M: MX, Tr: TrX + ?Sized> World<T, M, Tr> {
         out.outcome.push_str("ok");
     }
 
+    /// `dst.clone_from(&a)` where `dst` currently holds another (possibly same-layout) element type or other contents;
+    /// the result must be a clone of `a` in every respect, including how IT clones afterwards.
+    pub fn do_clone_from(&mut self, kind: u8, then: u8, out: &mut Out) {
+        let len = self.ma.len();
+        crate::track::with_ts(|ts| ts.foreign = true);
+        let built = guarded(|| Tr::foreign_vec::<T, M>(kind));
+        crate::track::with_ts(|ts| ts.foreign = false);
+        let mut d = match built {
+            Ok(Some(d)) => d,
+            Ok(None) => { out.outcome.push_str("skipped"); return; }
+            Err(Caught::Injected) => { out.faulted = true; return; }
+            Err(Caught::Panic(m)) => { out.fail(Class::Machinery, "foreign-vec", m); return; }
+        };
+        if !M::RESIZABLE && d.capacity() < len { out.outcome.push_str("skipped-room"); let _ = guarded(move || drop(d)); return; }
+        let before = elem::with_reg(|r| r.clones + r.zst_clones);
+        let a = &self.a;
+        match guarded(|| Tr::clone_from_vec(&mut d, a)) {
+            Ok(()) => {}
+            Err(Caught::Injected) => { out.faulted = true; return; }
+            Err(Caught::Panic(m)) => { out.fail(Class::Vec, "clone-panicked", format!("clone_from into a {}-backed vector (destination kind {kind}) panicked: {m}", M::name())); return; }
+        }
+        let n = elem::with_reg(|r| r.clones + r.zst_clones) - before;
+        if n as usize != len { out.fail(Class::Vec, "clone-count", format!("clone_from: {n} Clone calls for {len} elements")); }
+        if d.element_typeid() != TypeId::of::<T>() || d.element_layout() != Layout::new::<T>() { out.fail(Class::Type, "clone-type", "clone_from result reports a different element type / layout".into()); }
+        if d.len() != len { out.fail(Class::Vec, "clone-len", format!("clone_from result has len {}, source {len}", d.len())); }
+        if d.capacity() < d.len() { out.fail(Class::Cap, "len-gt-cap", format!("clone_from result len {} > capacity {}", d.len(), d.capacity())); }
+        if d.downcast_ref::<T>().is_none() { out.fail(Class::Type, "clone-type", "clone_from result does not downcast to the source's element type".into()); let _ = guarded(move || core::mem::forget(d)); return; }
+        let mut md: Vec<Mv> = self.ma.iter().map(|m| Mv::CloneOf(match m { Mv::Id(i) => *i, Mv::CloneOf(p) => *p })).collect();
+        md.reserve(4);
+        let sd = snap::<T, Tr, M>(&d);
+        if !snap_matches::<T>(&sd, &md) { out.fail(Class::Vec, "clone-seq", format!("clone_from result holds {} want clones of {:?}", fmt_ids(&sd), self.ma)); }
+        if T::SIZE != 0 && len > 0 && d.len() == len {
+            let (pa, pd) = (self.a.as_bytes().as_ptr() as usize, d.as_bytes().as_ptr() as usize);
+            let bytes = len * T::SIZE;
+            if pa < pd + bytes && pd < pa + bytes { out.fail(Class::Mem, "clone-shares-storage", format!("clone_from storage {pd:#x} overlaps source storage {pa:#x}")); }
+        }
+        if T::SIZE != 0 && sd.len() == md.len() { for (m, s) in md.iter_mut().zip(&sd) { *m = Mv::Id(s.0); } }
+        // the result clones like the source does
+        if out.fails.is_empty() {
+            let before = elem::with_reg(|r| r.clones + r.zst_clones);
+            match guarded(|| Tr::clone_vec(&d)) {
+                Ok(c2) => {
+                    let n = elem::with_reg(|r| r.clones + r.zst_clones) - before;
+                    if n as usize != d.len() { out.fail(Class::Vec, "clone-count", format!("clone() of a clone_from result: {n} Clone calls for {} elements", d.len())); }
+                    let s2 = snap::<T, Tr, M>(&c2);
+                    let want: Vec<Mv> = sd.iter().map(|(id, _)| Mv::CloneOf(*id)).collect();
+                    if !snap_matches::<T>(&s2, &want) { out.fail(Class::Vec, "clone-seq", format!("clone() of a clone_from result holds {} want clones of {}", fmt_ids(&s2), fmt_ids(&sd))); }
+                    if c2.element_typeid() != TypeId::of::<T>() { out.fail(Class::Type, "clone-type", "clone() of a clone_from result reports another element type".into()); }
+                    let _ = guarded(move || drop(c2));
+                }
+                Err(Caught::Injected) => out.faulted = true,
+                Err(Caught::Panic(m)) => out.fail(Class::Vec, "clone-panicked", format!("clone() of a clone_from result panicked: {m}")),
+            }
+        }
+        // independence
+        let sa0 = snap::<T, Tr, M>(&self.a);
+        follow_up::<T, Tr, M>(&mut d, &mut md, then, out);
+        if snap::<T, Tr, M>(&self.a) != sa0 { out.fail(Class::Vec, "not-independent", format!("operation {then} on the clone_from result changed the source")); }
+        let s = snap::<T, Tr, M>(&d);
+        if !out.faulted && !snap_matches::<T>(&s, &md) { out.fail(Class::Vec, "clone-follow-up-seq", format!("clone_from result after operation {then}: {} want {:?}", fmt_ids(&s), md)); }
+        if let Err(x) = guarded(move || drop(d)) { if !matches!(x, Caught::Injected) { out.fail(Class::Own, "drop-panicked", format!("{x:?}")); } }
+        out.outcome.push_str("ok");
+    }
+
     pub fn do_clone_empty(&mut self, then: u8, out: &mut Out) {
         let a = &self.a;
         match guarded(|| a.clone_empty()) {
